@@ -66,6 +66,20 @@ class SingleVsBulk(Harness):
         # a fresh inverter object and simulated inverter for every path (no state may leak between paths)
         inv, fake = models.make(M, self.cfg, crc=crc)
         info = range(0x88b8, 0x88b8 + 0x21) if self.cfg["family"] == "ET" else range(0x7531, 0x7531 + 0x28)
+        if self.cfg.get("refuse"):
+            # capability fallback configurations: firmware that refuses a block refuses every read of the registers only
+            # that block delivers; the object first polls (concrete contents) until its capabilities are settled —
+            # the comparison below is about the state *after* the set of available sensors has changed
+            from .c15 import REGIONS
+            regions = [REGIONS[n] for n in self.cfg["refuse"] if n in REGIONS]
+            base = fake.refuse
+            fake.refuse = lambda a, c: base(a, c) or any(a < hi and a + c > lo for lo, hi in regions)
+            fake.default = lambda a: 1
+            for _ in range(2):
+                try:
+                    drive(inv.read_runtime_data())
+                except M.exceptions.InverterError:
+                    pass
         fake.regs = {a: v for a, v in fake.regs.items() if a in info}
         fake.default = default
         fake.log.clear()
@@ -216,6 +230,9 @@ CFGS_QUICK = [
     {"family": "ET", "serial": "9006KEHU218W0001", "rated_power": 6000, "refuse": []},
     {"family": "DT", "serial": "9010KDTU218W0001", "refuse": []},
     {"family": "DT", "serial": "9010KMSU218W0001", "refuse": []},
+    # capability fallbacks of the meter block (extended-2 refused; both extended blocks refused)
+    {"family": "ET", "serial": "9025KETT218W0001", "rated_power": 25000, "refuse": ["meter_ext2"]},
+    {"family": "ET", "serial": "9025KETT218W0001", "rated_power": 25000, "refuse": ["meter_ext2", "meter_ext"]},
 ]
 
 
@@ -229,7 +246,9 @@ def tasks(tier, seed):
     for cfg in cfgs:
         inv, fake, blocks = models.discover_blocks(R, cfg)
         for s in inv.sensors():
-            k = (cfg["family"], s.id_, s.offset, S.cls_name(s), len(blocks))
+            if cfg["refuse"] and not (36000 <= s.offset < 36200):
+                continue   # the fallback configurations matter for the meter block only
+            k = (cfg["family"], s.id_, s.offset, S.cls_name(s), len(blocks), tuple(cfg["refuse"]))
             if k in seen:
                 continue
             seen.add(k)
